@@ -42,7 +42,11 @@ func main() {
 	case "faults":
 		err = fam.Faults(*out, *seed)
 	case "writers":
-		err = fam.Writers(*scn, *out, *seed, *n)
+		if *mode == "real" {
+			err = fam.WritersReal(*scn, *out, *seed, *n)
+		} else {
+			err = fam.Writers(*scn, *out, *seed, *n)
+		}
 	case "codec":
 		switch *mode {
 		case "parse":
